@@ -534,3 +534,14 @@ def random_opts(rng, mesh, kind, degree, variant):
     if v in (3, 7) and len(doms) >= 1:
         opts["swapped_normals"] = [int(x) for x in rng.choice(doms, size=max(1, len(doms) // 2), replace=False)]
     return opts
+
+
+def draw_opts(rng, mesh, topo, kind, degree, variant, tries=8):
+    """random_opts, redrawn (next variants) until the selection carries at least one DOF and is inside the model.
+    Returns (opts, tries_used) or (None, tries) if none was found."""
+    for t in range(tries):
+        opts = random_opts(rng, mesh, kind, degree, variant + 3 * t)
+        exp = expected_entities(topo, mesh.D, kind, degree, opts)
+        if exp is not None and len(exp[1]) > 0:
+            return opts, t
+    return None, tries
